@@ -44,12 +44,35 @@ def r14_1(ctx, repo):
             sinks.setdefault(name, []).append((s, v))
     env = {ROOT: Frame(ROOT)}
     walk(fn.body, env, on_stmt)
-    want = {'self._id_key == individual', 'self._obs_key == observable',
+    obs_name = 'observable'
+    for a_ in ast.walk(fn):
+        if isinstance(a_, ast.Assign) and isinstance(
+                a_.targets[0], ast.Name) and U(a_.value).startswith(
+                'self._output_observable_dict['):
+            obs_name = a_.targets[0].id
+    ind_name = [a.arg for a in fn.args.args][1] if len(
+        fn.args.args) > 1 else 'individual'
+    want = {'self._id_key == %s' % ind_name,
+            'self._obs_key == %s' % obs_name,
             'notnull(self._value_key)', 'notnull(self._time_key)'}
     pair = {}
+    # the two per-output lists are the ones handed to chi.LogLikelihood as
+    # observations (3rd argument) and times (4th argument)
+    mk = [c for c in ast.walk(fn) if isinstance(c, ast.Call)
+          and U(c.func).split('.')[-1] == 'LogLikelihood']
+    lname = {'times': 'times', 'observations': 'observations'}
+    if mk:
+        kw = {k.arg: k.value for k in mk[0].keywords}
+        a_obs = kw.get('observations', mk[0].args[2] if len(
+            mk[0].args) > 2 else None)
+        a_t = kw.get('times', mk[0].args[3] if len(mk[0].args) > 3 else None)
+        if isinstance(a_obs, ast.Name):
+            lname['observations'] = a_obs.id
+        if isinstance(a_t, ast.Name):
+            lname['times'] = a_t.id
     for name, col in (('times', 'self._time_key'),
                       ('observations', 'self._value_key')):
-        lst = sinks.get(name, [])
+        lst = sinks.get(lname[name], [])
         if len(lst) != 1:
             ctx.error(rule, '%s: expected one `%s.append(...)`, found %d' % (
                 construct, name, len(lst)))
@@ -103,7 +126,8 @@ def r14_1(ctx, repo):
             it = U(l.iter)
             tgt = U(l.target)
             obs_def = [s for s in ast.walk(l) if isinstance(s, ast.Assign)
-                       and U(s.targets[0]) == 'observable']
+                       and U(s.value).startswith(
+                           'self._output_observable_dict[')]
             mapped = obs_def and U(obs_def[0].value) == \
                 'self._output_observable_dict[%s]' % tgt
             where = repo.loc(l, CLS, fn.name)
@@ -135,10 +159,14 @@ def r14_2(ctx, repo):
     construct = CLS + '._extract_covariates'
     sinks = []
 
+    rets = [r for r in ast.walk(fn) if isinstance(r, ast.Return)
+            and isinstance(r.value, ast.Name)]
+    sink_name = rets[-1].value.id if rets else 'covariates'
+
     def on_stmt(s, env, val):
         if isinstance(s, ast.Assign) and isinstance(
                 s.targets[0], ast.Subscript) and U(
-                s.targets[0].value) == 'covariates':
+                s.targets[0].value) == sink_name:
             sinks.append((s, ev(s.value, env)))
     env = {ROOT: Frame(ROOT)}
     walk(fn.body, env, on_stmt)
@@ -209,6 +237,9 @@ def r14_3(ctx, repo):
     rule = 'R14.3'
     fn = repo.method(CLS, '_extract_dosing_regimens')
     construct = CLS + '._extract_dosing_regimens'
+    rets_ = [r for r in ast.walk(fn) if isinstance(r, ast.Return)
+             and isinstance(r.value, ast.Name)]
+    reg_name = rets_[-1].value.id if rets_ else 'regimens'
     events = []
     stores = []
     protos = []
@@ -222,7 +253,7 @@ def r14_3(ctx, repo):
                 events.append((s, c, dict(env)))
         if isinstance(s, ast.Assign):
             t = s.targets[0]
-            if isinstance(t, ast.Subscript) and U(t.value) == 'regimens':
+            if isinstance(t, ast.Subscript) and U(t.value) == reg_name:
                 stores.append((s, U(t.slice), U(s.value)))
             if isinstance(s.value, ast.Call) and U(s.value.func).endswith(
                     'myokit.Protocol'):
